@@ -52,6 +52,16 @@ DIV_VALUE = """    #[kani::proof]
     }
 """
 
+DIV_SMALL = """    #[kani::proof]
+    fn calc_div_value_small() {      // the quotient itself, against Rust's truncating `/`, for operands of 8 bits (a second divider circuit is only tractable on a small domain)
+        let a8: i8 = kani::any(); let b8: i8 = kani::any();
+        kani::assume(b8 != 0);
+        let (a, b) = (a8 as i32, b8 as i32);
+        let r = CS.infix(Ok(a), op(Rule::div), Ok(b));
+        assert!(r == Ok(a / b));
+    }
+"""
+
 PRELUDE = """// GENERATED on every run from /repo's current working tree by /verif/check -- do not edit.
 #![allow(unused, non_camel_case_types, unreachable_code, unreachable_patterns)]
 macro_rules! debug { ($($t:tt)*) => {} }
@@ -108,6 +118,8 @@ def build(repo):
             u.harnesses["calc_%s_total" % name] = (["C10", "C16"], "calc-%s-total" % name, "infix %s: Err (no panic, no wrap) exactly when C leaves a %s b undefined in 32-bit int" % (name, name))
         if value is None:
             h.append(DIV_VALUE % {"n": name, "d": defined})
+            h.append(DIV_SMALL)
+            u.harnesses["calc_div_value_small"] = (["C10"], "calc-div-value-small", "infix div: equals Rust's truncating a / b for all 8-bit a, b (b != 0): a complete proof of the statement on that domain, a bounded stand-in for the full one, whose full-domain form is the C99 characterisation calc-div-value")
         else:
             h.append("""    #[kani::proof]
     fn calc_%(n)s_value() {
@@ -196,7 +208,7 @@ def build(repo):
     u.text[None] = text + "".join(h)
     u.rewrites = ["R7: closure bodies of map_infix / map_prefix wrapped as methods infix()/prefix() of a shim self, parameter names kept"]
     u.dropped = ["the PrattParser driver and map_primary (pest Pairs)", "debug! logging (R1)"]
-    u.bounded = []
+    u.bounded = ["calc_div_value_small: operands restricted to 8 bits (complete on that domain); the full-domain statement about / is the C99 characterisation calc-div-value"]
     return u
 
 
@@ -226,7 +238,7 @@ def lift(harness, vals):
             "xor": lambda a, b: a ^ b, "brs": lambda a, b: a >> b, "bls": lambda a, b: a << b, "land": lambda a, b: int(a != 0 and b != 0), "lor": lambda a, b: int(a != 0 or b != 0),
             "gt": lambda a, b: int(a > b), "gte": lambda a, b: int(a >= b), "lt": lambda a, b: int(a < b), "lte": lambda a, b: int(a <= b), "eq": lambda a, b: int(a == b), "neq": lambda a, b: int(a != b)}
     expr, expected = None, None
-    m = re.match(r"calc_(\w+?)_(value|total)$", harness)
+    m = re.match(r"calc_(\w+?)_(value|total)(?:_small)?$", harness)
     if harness in ("calc_ternary_value", "calc_ternary_sentinel") and len(ints) >= 2:
         if harness == "calc_ternary_sentinel":
             a, b, c = ints[0], 0x7eaddead, ints[1]
